@@ -25,6 +25,7 @@ func init() {
 const scPkg = "sharedcache"
 
 func runC16(c *Ctx) {
+	c.entryPathJoinsTheKeyItself()
 	c.rule("Y1", "ILock typestate: release only while held (explicit or deferred), at most once per acquisition, and no exit while held without a pending release", 2)
 	c.rule("Y2", "SharedMutableCacheRepository: TransferFiles / unpackPackageToLocalDestination are called only while the entry lock is held", 2)
 	c.rule("Y3", "immutable Store: local archive named by generateCachedPackageName() (ends with the .part marker); the Move to the final name follows the successful TransferFiles and strips the marker from the uploaded name", 3)
